@@ -1017,6 +1017,7 @@ class Pipeline:
             unused -= set(update.keys())
             f.update_renames(update, overwrite=overwrite, update_from=update_from)
         self._clear_internal_cache()
+        self._clear_result_cache()
         if unused:
             unused_str = ", ".join(sorted(unused))
             msg = f"Unused keyword arguments: `{unused_str}`. These are not settable renames."
@@ -1099,7 +1100,14 @@ class Pipeline:
             if f_inputs or f_outputs:
                 f.update_scope(scope, inputs=f_inputs, outputs=f_outputs, exclude=exclude)
         self._clear_internal_cache()
+        self._clear_result_cache()
         self._validate()
+
+    def _clear_result_cache(self) -> None:
+        # Cached results are keyed by output name and argument names, a name may now
+        # belong to another function (e.g., after swapping two output names).
+        if self.cache is not None:
+            self.cache.clear()
 
     def _flatten_scopes(self, kwargs: dict[str, Any]) -> dict[str, Any]:
         flat_scope_kwargs = kwargs
